@@ -1383,6 +1383,97 @@ fn replay(run: &Run, path: &std::path::Path) {
     }
 }
 
+/// Weights of real routing solutions (`InsertionContext::on_init`, vrp-core `metrics.rs`): 15 finite numbers whatever the
+/// solution looks like - no tour at all, tours without any load (problems whose jobs have no demand), ruined tours.
+fn vrp_weights_case(run: &Run, case_seed: u64) {
+    use vrp_core::construction::heuristics::InsertionContext;
+    use vrp_core::models::common::Footprint;
+    use vrp_core::rosomaxa::algorithms::gsom::Input as _;
+    use vrp_core::rosomaxa::population::RosomaxaSolution as _;
+    use vrp_core::solver::search::{RandomJobRemoval, Recreate, RecreateWithCheapest, RemovalLimits, Ruin};
+    use vrp_core::solver::{GreedyPopulation, RefinementContext};
+    use vverif::pragen::{GenCfg, generate};
+    use vverif::solverun::{ReadOutcome, read_problem};
+
+    let mut rng = Rng::new(case_seed);
+    let mut cfg = GenCfg::default();
+    cfg.min_jobs = 4;
+    cfg.max_jobs = 16;
+    let mut gp = generate(&mut rng, &cfg);
+    let without_demand = rng.chance(0.5);
+    if without_demand {
+        // every task becomes a service task without demand: no tour ever carries a load
+        for job in gp.problem["plan"]["jobs"].as_array_mut().into_iter().flatten() {
+            let mut services: Vec<Value> = Vec::new();
+            for key in ["pickups", "deliveries", "replacements", "services"] {
+                if let Some(tasks) = job.as_object_mut().and_then(|o| o.remove(key)) {
+                    for mut t in tasks.as_array().cloned().unwrap_or_default() {
+                        t.as_object_mut().map(|o| o.remove("demand"));
+                        services.push(t);
+                    }
+                }
+            }
+            job["services"] = Value::Array(services);
+        }
+    }
+    let kind = if without_demand { "without any demand" } else { "with demands" };
+    let ReadOutcome::Ok(problem) = read_problem(&gp) else {
+        run.inconclusive("vrp weights: generated problem rejected by the reader");
+        return;
+    };
+    let env = Arc::new(Environment::new(Arc::new(DefaultRandom::default()), None, Parallelism::new(1, 1), Arc::new(|_: &str| {}), false));
+    let footprint = Footprint::new(problem.as_ref());
+    let art = |extra: Value| json!({"part": "vrp-weights", "case_seed": case_seed, "problem_kind": kind, "problem": gp.problem, "matrices": gp.matrices, "observed": extra});
+    let judge = |state: &str, mut ctx: InsertionContext| -> InsertionContext {
+        let fp = footprint.clone();
+        let outcome = run.guard(move || {
+            ctx.on_init(&fp);
+            let w = ctx.weights().to_vec();
+            (ctx, w)
+        });
+        run.eval();
+        match outcome {
+            Ok((ctx, w)) => {
+                run.observe("vrp_weights", &format!("{kind}|{state}"));
+                if w.len() != 15 {
+                    run.violation("C19|vrp-weights|dimension", &format!("{} weights instead of 15 for a solution ({state}, problem {kind})", w.len()), art(json!({"weights": w.iter().map(|x| format!("{x}")).collect::<Vec<_>>()})));
+                }
+                if let Some(i) = w.iter().position(|x| !x.is_finite()) {
+                    run.violation(
+                        &format!("C19|vrp-weights|non-finite|index={i}|state={state}|problem={kind}"),
+                        &format!("weight {i} of a real routing solution ({state}, problem {kind}, {} tours) is {}", ctx.solution.routes.len(), w[i]),
+                        art(json!({"weights": w.iter().map(|x| format!("{x}")).collect::<Vec<_>>(), "tours": ctx.solution.routes.len()})),
+                    );
+                }
+                if ctx.solution.routes.len() > 0 {
+                    run.nontrivial(&format!("vrp-weights|{kind}|{state}|{case_seed}"));
+                }
+                ctx
+            }
+            Err(info) => {
+                run.violation(&format!("C19|vrp-weights|panic|{}", info.file()), &format!("on_init panicked ({state}, problem {kind}): {} at {}", info.message, info.location), art(info.to_json()));
+                InsertionContext::new(problem.clone(), env.clone())
+            }
+        }
+    };
+    let empty = judge("no tour", InsertionContext::new(problem.clone(), env.clone()));
+    let built = run.guard(|| {
+        let refinement_ctx = RefinementContext::new(problem.clone(), Box::new(GreedyPopulation::new(problem.goal.clone(), 1, None)), TelemetryMode::None, env.clone());
+        let constructed = RecreateWithCheapest::new(env.random.clone()).run(&refinement_ctx, empty);
+        let copy = constructed.deep_copy();
+        let limits = RemovalLimits { removed_activities_range: 2..8, affected_routes_range: 1..3 };
+        let ruined = RandomJobRemoval::new(limits).run(&refinement_ctx, copy);
+        (constructed, ruined)
+    });
+    match built {
+        Ok((constructed, ruined)) => {
+            judge("constructed", constructed);
+            judge("ruined", ruined);
+        }
+        Err(_) => run.inconclusive("vrp weights: construction panicked (C01/C04's subject)"),
+    }
+}
+
 fn main() {
     let run = Run::from_args(
         "C19",
@@ -1409,6 +1500,11 @@ fn main() {
     run.assume("node.error reaching +inf is not judged (only NaN / negative); mse(), max_unified_distance(), node mse and unified distance must be finite and >= 0");
     run.assume("replay re-runs the seeded case up to 20 times: Network::new iterates a std HashMap with a random hasher, so node creation order is not reproducible");
 
+    // the inputs the solver itself feeds into the map: the weights of real routing solutions (vrp-core metrics), before the
+    // (time bounded) stream cases so that they are never starved
+    let vrp_cases = run.by_tier(120u64, 2_000);
+    par_for(8, vrp_cases, &|| !run.has_time_frac(0.15), &|i| vrp_weights_case(&run, mix(run.seed ^ 0x77E1, i)));
+
     let thorough = !run.is_quick();
     let cases = run.by_tier(200_000u64, 4_000_000);
     par_for(16, cases, &|| !run.has_time(), &|i| {
@@ -1416,6 +1512,11 @@ fn main() {
         run_case(&run, case_seed, thorough);
     });
 
+    for k in ["with demands", "without any demand"] {
+        for st in ["no tour", "constructed", "ruined"] {
+            run.floor(&format!("weights of real routing solutions: problem {k}, state {st}"), run.observed("vrp_weights", &format!("{k}|{st}")), 5);
+        }
+    }
     run.floor("evaluations", run.evaluations(), 10_000);
     for op in ["new", "store_batch", "store_batch(1)", "smooth", "compact", "set_learning_rate"] {
         run.floor(&format!("network op {op}"), run.observed("network_ops", op), 10);
